@@ -387,6 +387,32 @@ class VariationalWassersteinDistance(darsia.EMD):
         user_defined_amg_options = self.options.get("amg_options", {})
         self.amg_options.update(user_defined_amg_options)
 
+    def _setup_amg_hierarchy(self, matrix: sps.csc_matrix):
+        """Setup of the multilevel hierarchy for the given matrix.
+
+        NOTE: pyamg draws random vectors from numpy's global random generator during
+        the setup. Use a fixed seed for a reproducible hierarchy, and hand the global
+        generator back in the state it was found in.
+
+        Args:
+            matrix (sps.csc_matrix): matrix
+
+        Returns:
+            pyamg.multilevel.MultilevelSolver: multilevel solver
+
+        """
+        self.setup_amg_options()
+        random_state = np.random.get_state()
+        np.random.seed(0)
+        try:
+            with warnings.catch_warnings():
+                warnings.filterwarnings(
+                    "ignore", message="Implicit conversion of A to CSR"
+                )
+                return pyamg.smoothed_aggregation_solver(matrix, **self.amg_options)
+        finally:
+            np.random.set_state(random_state)
+
     def setup_amg_solver(self, matrix: sps.csc_matrix) -> None:
         """Setup an AMG solver for the given matrix.
 
@@ -399,12 +425,7 @@ class VariationalWassersteinDistance(darsia.EMD):
 
         """
         # Define AMG solver
-        self.setup_amg_options()
-        with warnings.catch_warnings():
-            warnings.filterwarnings("ignore", message="Implicit conversion of A to CSR")
-            self.linear_solver = pyamg.smoothed_aggregation_solver(
-                matrix, **self.amg_options
-            )
+        self.linear_solver = self._setup_amg_hierarchy(matrix)
 
         # Define solver options
         linear_solver_options = self.options.get("linear_solver_options", {})
@@ -437,12 +458,7 @@ class VariationalWassersteinDistance(darsia.EMD):
         self.linear_solver = darsia.linalg.CG(matrix)
 
         # Define AMG preconditioner
-        self.setup_amg_options()
-        with warnings.catch_warnings():
-            warnings.filterwarnings("ignore", message="Implicit conversion of A to CSR")
-            amg = pyamg.smoothed_aggregation_solver(
-                matrix, **self.amg_options
-            ).aspreconditioner(cycle="V")
+        amg = self._setup_amg_hierarchy(matrix).aspreconditioner(cycle="V")
 
         # Define solver options
         linear_solver_options = self.options.get("linear_solver_options", {})
